@@ -131,3 +131,38 @@ Theorem C18_should_stop_example :
   ~ should_stop (firstn 2 h) 1 (5 / 100) Absolute /\ ~ should_stop (firstn 1 h) 1 (5 / 100) Absolute.
 Proof. exact should_stop_example. Qed.
 Print Assumptions C18_should_stop_example.
+
+(* ---------------------------------------------------------------------------------------------
+   Link to C12 (QModel.Protocol, the fit machine; proof: QTheory.Links, module L1).
+   Theorem 1 instantiated on plans whose epochs are the EpochEnd epochs of a run of the fit machine:
+   those are the consecutive range start, start+1, ... ([zrange]), so position k of the plan IS epoch
+   start + k, no epoch occurs twice, and "the first checked epoch at which the rule holds" is
+   unambiguous; the epochs that ran are start .. start+k. *)
+From QModel Require Import Protocol.
+From QTheory Require Links.
+Import Links.L1.
+
+Theorem C18_stopper_on_fit_run :
+  forall (St V : Type) (value_of variance_of : V -> result R) (val var : V -> R)
+         (metrics : St -> vals V) (g : St -> V) (qname : name) (crit : criterion),
+  (forall s, lookup qname (metrics s) = Some (g s) /\ readable value_of variance_of val var crit (g s)) ->
+  forall (inj : injector) (sched : bool) (start epochs : Z) (nb ver0 : nat)
+         (ev_first : bool) (plan : list (Z * St)) (ev : evaluator V) (st : stopper R),
+  map fst plan = epoch_ends (ctrace (fit inj sched start epochs nb false ver0)) ->
+  wf_stopper qname crit st -> tracked value_of variance_of val var qname crit ev ->
+  let conv := convergent val var g qname crit ev_first ev st plan in
+  match es_fit ROps value_of variance_of ev_first metrics ev st plan with
+  | (evf, stf, Stopped e, ran) =>
+      exists k, e = (start + Z.of_nat k)%Z /\ k < length plan /\
+                conv k /\ (forall j, j < k -> ~ conv j) /\
+                (forall k', nth_error (map fst plan) k' = Some e -> k' = k) /\
+                ran = zrange start (S k) /\
+                st_last_epoch stf = Some e /\
+                evf = ev_run metrics ev (firstn (S k) plan)
+  | (evf, stf, Completed, ran) =>
+      (forall j, ~ conv j) /\ ran = zrange start (length plan) /\
+      length plan <= num_epochs start epochs /\ stf = st /\ evf = ev_run metrics ev plan
+  | (_, _, Raised _ _, _) => False
+  end.
+Proof. exact @Links.L1.stopper_on_fit_run. Qed.
+Print Assumptions C18_stopper_on_fit_run.
